@@ -53,11 +53,13 @@ func (c *v6Conn) ID() string                    { return "verif-conn" }
 
 type v6Scope struct{}
 
-func (v6Scope) ReserveMemory(int, uint8) error                    { return nil }
-func (v6Scope) ReleaseMemory(int)                                 {}
-func (v6Scope) Stat() network.ScopeStat                           { return network.ScopeStat{} }
-func (v6Scope) BeginSpan() (network.ResourceScopeSpan, error)     { return nil, errors.New("verif: no spans") }
-func (v6Scope) SetService(string) error                           { return nil }
+func (v6Scope) ReserveMemory(int, uint8) error { return nil }
+func (v6Scope) ReleaseMemory(int)              {}
+func (v6Scope) Stat() network.ScopeStat        { return network.ScopeStat{} }
+func (v6Scope) BeginSpan() (network.ResourceScopeSpan, error) {
+	return nil, errors.New("verif: no spans")
+}
+func (v6Scope) SetService(string) error { return nil }
 
 // ---------------------------------------------------------------------------
 // client side of a stream
@@ -266,8 +268,8 @@ func (h *v6Host) EventBus() event.Bus {
 	return h.bus
 }
 func (h *v6Host) SetStreamHandler(protocol.ID, network.StreamHandler) {}
-func (h *v6Host) RemoveStreamHandler(protocol.ID)                      {}
-func (h *v6Host) Close() error                                         { return nil }
+func (h *v6Host) RemoveStreamHandler(protocol.ID)                     {}
+func (h *v6Host) Close() error                                        { return nil }
 
 func (h *v6Host) NewStream(ctx context.Context, p peer.ID, pids ...protocol.ID) (network.Stream, error) {
 	w := h.w
@@ -329,10 +331,10 @@ type v6World struct {
 	singleKey  string
 	streams    []*v6Stream
 	log        []string
-	served     []string        // answers picked, in order of request arrival (an answer may never arrive)
-	arrived    []string        // answers that were actually played to the client (a hang never arrives)
+	served     []string            // answers picked, in order of request arrival (an answer may never arrive)
+	arrived    []string            // answers that were actually played to the client (a hang never arrives)
 	arrivedBy  map[string][]string // ... per request key
-	honestRead map[string]bool // request key -> a complete honest response was read by the client
+	honestRead map[string]bool     // request key -> a complete honest response was read by the client
 	harnessErr string
 }
 
@@ -457,20 +459,25 @@ type v6Capture struct {
 	proto          protocol.ID
 }
 
-func (c *v6Capture) Read(b []byte) (int, error)                   { return c.req.Read(b) }
-func (c *v6Capture) Write(b []byte) (int, error)                  { return c.out.Write(b) }
-func (c *v6Capture) Close() error                                 { return nil }
-func (c *v6Capture) CloseRead() error                             { return nil }
-func (c *v6Capture) CloseWrite() error                            { return nil }
-func (c *v6Capture) Reset() error                                 { c.resets = append(c.resets, 0); return nil }
-func (c *v6Capture) ResetWithError(e network.StreamErrorCode) error { c.resets = append(c.resets, e); return nil }
-func (c *v6Capture) SetDeadline(time.Time) error                  { return nil }
-func (c *v6Capture) SetReadDeadline(time.Time) error              { return nil }
-func (c *v6Capture) SetWriteDeadline(time.Time) error             { return nil }
-func (c *v6Capture) ID() string                                   { return "verif-capture" }
-func (c *v6Capture) Protocol() protocol.ID                        { return c.proto }
-func (c *v6Capture) Conn() network.Conn                           { return &v6Conn{remote: "verif-client", local: "verif-server"} }
-func (c *v6Capture) Scope() network.StreamScope                   { return v6Scope{} }
+func (c *v6Capture) Read(b []byte) (int, error)  { return c.req.Read(b) }
+func (c *v6Capture) Write(b []byte) (int, error) { return c.out.Write(b) }
+func (c *v6Capture) Close() error                { return nil }
+func (c *v6Capture) CloseRead() error            { return nil }
+func (c *v6Capture) CloseWrite() error           { return nil }
+func (c *v6Capture) Reset() error                { c.resets = append(c.resets, 0); return nil }
+func (c *v6Capture) ResetWithError(e network.StreamErrorCode) error {
+	c.resets = append(c.resets, e)
+	return nil
+}
+func (c *v6Capture) SetDeadline(time.Time) error      { return nil }
+func (c *v6Capture) SetReadDeadline(time.Time) error  { return nil }
+func (c *v6Capture) SetWriteDeadline(time.Time) error { return nil }
+func (c *v6Capture) ID() string                       { return "verif-capture" }
+func (c *v6Capture) Protocol() protocol.ID            { return c.proto }
+func (c *v6Capture) Conn() network.Conn {
+	return &v6Conn{remote: "verif-client", local: "verif-server"}
+}
+func (c *v6Capture) Scope() network.StreamScope { return v6Scope{} }
 
 // v6ServerHost records the handlers the real shrex.Server registers.
 type v6ServerHost struct {
